@@ -147,12 +147,12 @@ Proof.
     destruct (spec_parse NULong _) as [[x c]|] eqn:E; [|discriminate]. simpl.
     unfold spec_parse in E. simpl in E. unfold parse_ulong in E.
     destruct (split_sign _) as [[ng sl] t]. destruct (take_while is_digit t); [discriminate|].
-    apply if_some_inv in E. inversion E. discriminate.
+    apply if_some_inv in E. apply (f_equal fst) in E. unfold fst in E. rewrite <- E. discriminate.
   - unfold spec_number. destruct (drop_while is_space r); [discriminate|].
     destruct (spec_parse NLong _) as [[x c]|] eqn:E; [|discriminate]. simpl.
     unfold spec_parse in E. simpl in E. unfold parse_long in E.
     destruct (split_sign _) as [[ng sl] t]. destruct (take_while is_digit t); [discriminate|].
-    apply if_some_inv in E. inversion E. discriminate.
+    apply if_some_inv in E. apply (f_equal fst) in E. unfold fst in E. rewrite <- E. discriminate.
   - destruct r; discriminate.
   - destruct r; discriminate.
   - unfold spec_skip. destruct (drop_while is_space r); discriminate.
@@ -164,6 +164,16 @@ Proof.
   pose proof (spec_op_no_fuel o r) as H. destruct (spec_op o r) as [x r']. constructor; [exact H|apply IH].
 Qed.
 
+Lemma forall2_no_fuel : forall l l', Forall2 obs_agree l l' -> Forall (fun x => fst x <> ROutOfFuel) l ->
+  Forall (fun x => fst x <> ROutOfFuel) l'.
+Proof.
+  induction 1 as [|x y l l' A F IH]; intros N; [constructor|]. inversion N; subst. constructor; [|now apply IH].
+  destruct A as (A & _). intro E. destruct A as [A|(A & [B|B])].
+  - rewrite A in E. contradiction.
+  - rewrite B in E. discriminate.
+  - rewrite B in E. discriminate.
+Qed.
+
 Theorem fuel_suffices : forall v, fix_offset v = true -> fix_peek v = true -> fix_nan v = true ->
   forall b P mb data chunks ops tr, 0 < P -> transcript v b P mb data chunks ops = Some tr ->
   Forall (fun x => fst x <> ROutOfFuel) tr.
@@ -171,12 +181,7 @@ Proof.
   intros v Hfo Hfp Hfn b P mb data chunks ops tr HP Ht.
   destruct (window_refines_spec v Hfo Hfp Hfn b P mb data chunks ops HP) as (tr' & Ht' & F).
   rewrite Ht in Ht'. inversion Ht'; subst tr'. clear Ht'.
-  pose proof (spec_run_no_fuel (length data) ops data) as N.
-  induction F as [|x y l l' A F IH]; [constructor|]. inversion N; subst. constructor; [|now apply IH].
-  destruct A as (A & _). intro E. destruct A as [A|(A & [B|B])].
-  - rewrite A in E. contradiction.
-  - rewrite B in E. discriminate.
-  - rewrite B in E. discriminate.
+  eapply forall2_no_fuel; [exact F|apply spec_run_no_fuel].
 Qed.
 
 (* ---------------------------------------------------------------------------------------------- *)
@@ -233,7 +238,7 @@ Proof.
   assert (L2 : length (drop_while non_space (b :: t)) < length (b :: t)).
   { pose proof (drop_while_head _ _ _ _ E) as Hb. simpl. unfold non_space at 1. rewrite Hb. simpl.
     pose proof (drop_while_length non_space t). lia. }
-  apply IH; lia.
+  apply IH; simpl in *; lia.
 Qed.
 
 Lemma spec_delims_words : forall total n r,
@@ -249,7 +254,7 @@ Proof.
     assert (L2 : length (drop_while non_space (b :: t)) < length (b :: t)).
     { pose proof (drop_while_head _ _ _ _ E) as Hb. simpl. unfold non_space at 1. rewrite Hb. simpl.
       pose proof (drop_while_length non_space t). lia. }
-    apply words_fuel_enough; lia.
+    apply words_fuel_enough; simpl in *; unfold non_space in *; lia.
 Qed.
 
 Theorem no_split_merge : forall v, fix_offset v = true -> fix_peek v = true -> fix_nan v = true ->
@@ -263,4 +268,45 @@ Proof.
   rewrite <- (spec_delims_words (length data) n data).
   pose proof (run_refines_exact v Hfo Hfp Hfn (length data) (repeat ODelim n) s I) as H. rewrite R in H. apply H.
   clear. induction n; simpl; [reflexivity|assumption].
+Qed.
+
+(* ---------------------------------------------------------------------------------------------- *)
+Lemma forall2_offsets : forall l l1 l2, Forall2 obs_agree l l1 -> Forall2 obs_agree l l2 -> map snd l1 = map snd l2.
+Proof.
+  induction l as [|x l IH]; intros l1 l2 H1 H2; inversion H1; inversion H2; subst; [reflexivity|].
+  simpl. f_equal; [|now apply IH].
+  match goal with A : obs_agree x ?a, B : obs_agree x ?b |- _ => destruct A as (_ & A); destruct B as (_ & B); congruence end.
+Qed.
+
+Theorem transparent : forall b1 b2 P mb1 mb2 data chunks1 chunks2 ops, 0 < P ->
+  exists tr1 tr2, transcript repaired b1 P mb1 data chunks1 ops = Some tr1 /\
+                  transcript repaired b2 P mb2 data chunks2 ops = Some tr2 /\
+                  Forall2 obs_agree (spec_run (length data) ops data) tr1 /\
+                  Forall2 obs_agree (spec_run (length data) ops data) tr2 /\
+                  map snd tr1 = map snd tr2.
+Proof.
+  intros b1 b2 P mb1 mb2 data c1 c2 ops HP.
+  destruct (window_refines_spec repaired eq_refl eq_refl eq_refl b1 P mb1 data c1 ops HP) as (t1 & E1 & F1).
+  destruct (window_refines_spec repaired eq_refl eq_refl eq_refl b2 P mb2 data c2 ops HP) as (t2 & E2 & F2).
+  exists t1, t2. repeat split; try assumption. eapply forall2_offsets; eauto.
+Qed.
+
+Theorem exact_ops_equal : forall b P mb data chunks ops, 0 < P -> forallb exact_op ops = true ->
+  exists tr, transcript repaired b P mb data chunks ops = Some tr /\
+             map fst tr = map fst (spec_run (length data) ops data).
+Proof.
+  intros b P mb data chunks ops HP E.
+  destruct (init_inv repaired eq_refl b P mb data chunks HP) as (s & Hi & I & R).
+  unfold transcript. rewrite Hi. eexists. split; [reflexivity|].
+  pose proof (run_refines_exact repaired eq_refl eq_refl eq_refl (length data) ops s I E) as H. now rewrite R in H.
+Qed.
+
+Theorem shift_preserves_input : forall total s, Inv total s ->
+  if at_end s then shift repaired s = None
+  else exists s', shift repaired s = Some s' /\ Inv total s' /\ rest s' = rest s /\
+                  exists more, avail s' = avail s ++ more /\ (more <> [] \/ at_end s' = true).
+Proof.
+  intros total s I. pose proof (shift_spec repaired eq_refl total s I) as H. destruct (at_end s); [exact H|].
+  destruct H as (s' & Hs & Post). exists s'. split; [exact Hs|]. split; [apply Post|].
+  split; [eapply shift_post_rest; eauto|]. destruct Post as (_ & more & A & _ & C). exists more. split; assumption.
 Qed.
